@@ -18,8 +18,13 @@ Definition srt_dom (langs : list (list ocap)) : bool :=
 (* MicroDVD: some language has a caption; times are non-negative *)
 Definition times_nonneg (langs : list (list ocap)) : bool :=
   forallb (forallb (fun c => (0 <=? oc_start c) && (0 <=? oc_end c))) langs.
+(* ... and below 2^50 microseconds: _microtoframes goes through a binary64 product, the model's frame number us / 40000 is
+   the code's only where that product is exact (audit w7 item 7: the restriction belongs in the statement) *)
+Definition times_small (langs : list (list ocap)) : bool :=
+  forallb (forallb (fun c => (oc_start c <? 1125899906842624) && (oc_end c <? 1125899906842624))) langs.
 Definition mdvd_dom (langs : list (list ocap)) : bool :=
-  match concat langs with [] => false | _ => true end && times_nonneg langs && caps_free before_mdvd langs.
+  match concat langs with [] => false | _ => true end && times_nonneg langs && times_small langs
+  && caps_free before_mdvd langs.
 
 (* DFXP / SAMI skeletons: the documents come out of bs4; what the sniffers need of them is the closing </tt> of the root
    element (DFXP) and the opening <sami of the root element with no earlier marker behind it (SAMI) *)
